@@ -237,7 +237,8 @@ func Start(args ...string) (*Child, error) {
 		return nil, err
 	}
 	cmd := exec.Command(exe, args...)
-	cmd.Env = append(os.Environ(), "GOLOG_LOG_LEVEL=fatal", "GOTRACEBACK=single")
+	// panicnil=1: a deployment may run with the pre-1.21 meaning of panic(nil), where recover() returns nil
+	cmd.Env = append(os.Environ(), "GOLOG_LOG_LEVEL=fatal", "GOTRACEBACK=single", "GODEBUG=panicnil=1")
 	stdin, _ := cmd.StdinPipe()
 	stdout, _ := cmd.StdoutPipe()
 	c := &Child{cmd: cmd, stdin: stdin, Lines: make(chan string, 1024), Exited: make(chan struct{}), Stderr: &strings.Builder{}}
